@@ -169,6 +169,16 @@ func (p *c16Parser) obj() *c16Obj {
 			}
 			o.kind, o.obj = "single-float", slip.SingleFloat(f)
 			o.text = strconv.FormatFloat(float64(f), 'g', -1, 32) + "s0"
+		case 'l':
+			f := new(big.Float).SetPrec(uint(r.Num().BitLen() + r.Denom().BitLen() + 64))
+			if _, acc := f.SetRat(r), big.Exact; acc != big.Exact {
+				p.fail("long-float")
+			}
+			if back, _ := f.Rat(nil); back.Cmp(r) != 0 {
+				p.fail("long-float not exact")
+			}
+			o.kind, o.obj = "long-float", (*slip.LongFloat)(f)
+			o.text = f.Text('g', -1) + "L0"
 		default:
 			p.fail("rep")
 		}
@@ -294,6 +304,9 @@ func c16FixedUniverse(g *c16Gen) []string {
 		// value 5 in five representations, value 0, negative
 		g.numS('f', "5"), g.numS('b', "5"), g.numS('r', "5"), g.sgl(5), g.dbl(5), g.numS('f', "5"),
 		g.numS('f', "0"), g.dbl(0), g.dbl(math.Copysign(0, -1)), g.numS('f', "-5"), g.dbl(-5),
+		// long-floats
+		g.numS('l', "5"), g.numS('l', "1/2"), g.numS('l', "1/2"), g.numS('l', "3/2"), g.numS('l', "18446744073709551616"),
+		g.numS('l', "9007199254740992"), g.vec(g.numS('l', "9007199254740992")),
 		// 1/2 and 3/2
 		g.numS('r', "1/2"), g.numS('r', "1/2"), g.sgl(0.5), g.dbl(0.5), g.dbl(1.5), g.dbl(1.5), g.numS('r', "3/2"),
 		// fixnum/bignum boundary
@@ -354,6 +367,9 @@ func (g *c16Gen) randomLeaf() string {
 	case 2:
 		return g.num('s', small())
 	case 3:
+		if r.Chance(30) {
+			return g.num('l', small())
+		}
 		return g.num('d', small())
 	case 4:
 		if r.Bool() {
@@ -405,7 +421,7 @@ func (g *c16Gen) variantOf(w string, o *c16Obj, depth int) string {
 	switch o.kind {
 	case "null", "other":
 		return w
-	case "fixnum", "bignum", "ratio", "single-float", "double-float":
+	case "fixnum", "bignum", "ratio", "single-float", "double-float", "long-float":
 		v := o.rat
 		var reps []byte
 		if v.IsInt() {
@@ -420,7 +436,7 @@ func (g *c16Gen) variantOf(w string, o *c16Obj, depth int) string {
 			reps = append(reps, 's')
 		}
 		if _, exact := v.Float64(); exact {
-			reps = append(reps, 'd')
+			reps = append(reps, 'd', 'l')
 		}
 		return g.num(reps[r.Intn(len(reps))], v)
 	case "character":
@@ -757,7 +773,7 @@ func c16CheckUniverse(c *lib.Ctx, u *c16Universe) {
 						must = "t"
 					case !u.model[1][i][j]:
 						must = "n"
-					case a.kind == "list" || a.kind == "vector" || a.kind == "bignum" || a.kind == "ratio":
+					case a.kind == "list" || a.kind == "vector" || a.kind == "bignum" || a.kind == "ratio" || a.kind == "long-float":
 						must = "n"
 					}
 					if must != "" && got != must {
